@@ -53,7 +53,10 @@ Definition dump_table : list drow :=
    ("command.resolvePath"%string, ("resolvePath"%string, DBool));
    ("command.expandArguments"%string, ("expandArguments"%string, DStr));
    ("command.interpreter"%string, ("interpreter"%string, DStr));
+   ("executors.main.docker.docker-args"%string, ("docker-args"%string, DStr));
+   ("executors.main.docker.docker-image"%string, ("docker-image"%string, DStr));
    ("command.environment"%string, ("environment"%string, DStr));
+   ("executors.pre.lsf-dm-in.payload"%string, ("rstage-in"%string, DStr));
    ("executors.post.lsf-dm-out.payload"%string, ("rstage-out"%string, DStr))
   ].
 
@@ -123,4 +126,4 @@ Definition dropped_keys : list string :=
 Definition option_paths : list string :=
   ["references"%string; "workflowAttributes.restartHookFile"%string; "workflowAttributes.aggregate"%string; "workflowAttributes.replicate"%string; "workflowAttributes.isMigratable"%string; "workflowAttributes.isMigrated"%string; "workflowAttributes.repeatInterval"%string; "workflowAttributes.repeatRetries"%string; "workflowAttributes.maxRestarts"%string; "workflowAttributes.shutdownOn"%string; "workflowAttributes.restartHookOn"%string; "workflowAttributes.isRepeat"%string; "workflowAttributes.memoization.disable.strong"%string; "workflowAttributes.memoization.disable.fuzzy"%string; "workflowAttributes.memoization.embeddingFunction"%string; "workflowAttributes.optimizer.disable"%string; "workflowAttributes.optimizer.exploitChance"%string; "workflowAttributes.optimizer.exploitTarget"%string; "workflowAttributes.optimizer.exploitTargetLow"%string; "workflowAttributes.optimizer.exploitTargetHigh"%string; "resourceManager.config.backend"%string; "resourceManager.config.walltime"%string; "resourceManager.lsf.statusRequestInterval"%string; "resourceManager.lsf.queue"%string; "resourceManager.lsf.reservation"%string; "resourceManager.lsf.resourceString"%string; "resourceManager.lsf.dockerImage"%string; "resourceManager.lsf.dockerProfileApp"%string; "resourceManager.lsf.dockerOptions"%string; "resourceManager.kubernetes.image"%string; "resourceManager.kubernetes.qos"%string; "resourceManager.kubernetes.image-pull-secret"%string; "resourceManager.kubernetes.namespace"%string; "resourceManager.kubernetes.api-key-var"%string; "resourceManager.kubernetes.host"%string; "resourceManager.kubernetes.cpuUnitsPerCore"%string; "resourceManager.kubernetes.gracePeriod"%string; "resourceManager.kubernetes.podSpec"%string; "resourceManager.docker.image"%string; "resourceManager.docker.imagePullPolicy"%string; "resourceManager.docker.platform"%string; "resourceRequest.numberProcesses"%string; "resourceRequest.numberThreads"%string; "resourceRequest.ranksPerNode"%string; "resourceRequest.threadsPerCore"%string; "resourceRequest.memory"%string; "resourceRequest.gpus"%string; "command.executable"%string; "command.arguments"%string; "command.resolvePath"%string; "command.expandArguments"%string; "command.interpreter"%string; "executors.main.docker.docker-args"%string; "executors.main.docker.docker-image"%string; "command.environment"%string; "executors.pre.lsf-dm-in.payload"%string; "executors.post.lsf-dm-out.payload"%string].
 Definition inexpressible : list string :=
-  ["executors.main.docker.docker-args"%string; "executors.main.docker.docker-image"%string; "executors.pre.lsf-dm-in.payload"%string; "resourceManager.docker.image"%string; "resourceManager.docker.imagePullPolicy"%string; "resourceManager.docker.platform"%string; "resourceManager.kubernetes.podSpec"%string; "resourceManager.kubernetes.qos"%string; "resourceRequest.gpus"%string; "workflowAttributes.isMigrated"%string; "workflowAttributes.isRepeat"%string].
+  ["resourceManager.docker.image"%string; "resourceManager.docker.imagePullPolicy"%string; "resourceManager.docker.platform"%string; "resourceManager.kubernetes.podSpec"%string; "resourceManager.kubernetes.qos"%string; "resourceRequest.gpus"%string; "workflowAttributes.isMigrated"%string; "workflowAttributes.isRepeat"%string].
